@@ -42,7 +42,7 @@ def run(ctx):
             pred = [rng.choice(classes) for _ in range(n)]
             yield classes, yv, pred
 
-    budget = 50 if q else 500
+    budget = 400 if q else 2400
     for classes, yv, pred in cases_acc():
         y_train = np.array(classes)
         yva = np.array(yv)
@@ -99,7 +99,7 @@ def run(ctx):
             pred = [rng.choice([a, b]) for _ in range(n)]
             yield [a, b], yv, pred
 
-    budget2 = budget + (50 if q else 400)
+    budget2 = budget + (400 if q else 2400)
     for classes, yv, pred in cases_auc():
         y_train = np.array(classes)
         yva = np.array(yv)
